@@ -144,9 +144,17 @@ pub mod model {
         pub ans: [u16; 12],
         pub msg_len: [usize; 12],
         pub dst_len: [usize; 12],
+        /// up to two queries (by index) whose message octets are captured for comparison
+        pub cap_idx: [usize; 2],
+        pub cap: [[u8; CAP_LEN]; 2],
     }
     #[cfg(feature = "prog")]
-    pub static mut ORACLE: Oracle = Oracle { on: false, n: 0, ans: [0; 12], msg_len: [0; 12], dst_len: [0; 12] };
+    pub const CAP_LEN: usize = 448;
+    #[cfg(feature = "prog")]
+    pub static mut ORACLE: Oracle = Oracle {
+        on: false, n: 0, ans: [0; 12], msg_len: [0; 12], dst_len: [0; 12],
+        cap_idx: [usize::MAX; 2], cap: [[0; CAP_LEN]; 2],
+    };
     #[cfg(feature = "prog")]
     pub fn oracle() -> &'static mut Oracle {
         unsafe { &mut *core::ptr::addr_of_mut!(ORACLE) }
@@ -173,6 +181,37 @@ pub mod model {
         }
         o.msg_len[k] = ml;
         o.dst_len[k] = dl;
+        let mut c = 0;
+        while c < 2 {
+            if o.cap_idx[c] == k {
+                let mut off = 0;
+                let mut j = 0;
+                while j < msgs.len() {
+                    let m = msgs[j];
+                    let n = if off + m.len() <= CAP_LEN { m.len() } else { CAP_LEN - off };
+                    let mut i = 0;
+                    // 8 octets per iteration keeps the trip count below the harness unwind bound
+                    while i + 8 <= n {
+                        o.cap[c][off + i] = m[i];
+                        o.cap[c][off + i + 1] = m[i + 1];
+                        o.cap[c][off + i + 2] = m[i + 2];
+                        o.cap[c][off + i + 3] = m[i + 3];
+                        o.cap[c][off + i + 4] = m[i + 4];
+                        o.cap[c][off + i + 5] = m[i + 5];
+                        o.cap[c][off + i + 6] = m[i + 6];
+                        o.cap[c][off + i + 7] = m[i + 7];
+                        i += 8;
+                    }
+                    while i < n {
+                        o.cap[c][off + i] = m[i];
+                        i += 1;
+                    }
+                    off += n;
+                    j += 1;
+                }
+            }
+            c += 1;
+        }
         o.n = k + 1;
         o.ans[k]
     }
@@ -264,11 +303,15 @@ pub mod hash2curve {
         pub ctr: u16,
     }
     impl Expander for ModelExpander {
+        /// output stream: the two state octets, repeated with a position-dependent mask, so that the
+        /// first two octets carry the whole 16-bit state (every scalar value is reachable)
         fn fill_bytes(&mut self, okm: &mut [u8]) {
+            let lo = self.state as u8;
+            let hi = (self.state >> 8) as u8;
             let mut i = 0;
             while i < okm.len() {
-                let x = self.state ^ self.ctr.wrapping_mul(0x9E37);
-                okm[i] = (x ^ (x >> 8)) as u8;
+                let m = ((self.ctr >> 1) as u8).wrapping_mul(0x3D);
+                okm[i] = (if self.ctr & 1 == 0 { lo } else { hi }) ^ m;
                 self.ctr = self.ctr.wrapping_add(1);
                 i += 1;
             }
